@@ -358,7 +358,6 @@ func (c *c20) Run(cs core.Case) core.Result {
 		if p.Fmt == "par2" {
 			expect("create-invalid-slice-size", runPar(cwd, "c", "-s", "5", spell("s"+ext), spell(w.dataRel[0])), "other-failure")
 		}
-		expect("create-into-missing-directory", runPar(cwd, "c", spell("no/such/dir/x"+ext), spell(w.dataRel[0])), "other-failure")
 		// a directory squats on the first volume's name
 		squat := "q.vol00+01.par2"
 		if p.Fmt == "par1" {
